@@ -671,7 +671,7 @@ func (s *Sim) httpDo(method, path string, body interface{}) (int, []byte) {
 }
 
 // stepAPIRelease lists IPs over HTTP and posts one entry back (releasable or not, chosen at random).
-func (s *Sim) stepAPIRelease() {
+func (s *Sim) stepAPIRelease(target string) {
 	code, body := s.httpDo("GET", "/v1/ip?size=9999", nil)
 	var lr api.ListIPResp
 	_ = json.Unmarshal(body, &lr)
@@ -686,6 +686,18 @@ func (s *Sim) stepAPIRelease() {
 		return
 	}
 	f := cands[s.rng.Intn(len(cands))]
+	if target != "" {
+		found := false
+		for _, c := range cands {
+			if c.IP == target {
+				f, found = c, true
+			}
+		}
+		if !found {
+			s.record("api-release", target, "not listed")
+			return
+		}
+	}
 	code2, body2 := s.httpDo("POST", "/v1/ip", api.ReleaseIPReq{IPs: []api.FloatingIP{f}})
 	var rr api.ReleaseIPResp
 	_ = json.Unmarshal(body2, &rr)
